@@ -85,7 +85,7 @@ contract("ast.NodeTransformer.generic_visit", assumed=True,
 contract("builtins.eval", assumed=True, params=dict(source=Str), result=Ref, may_raise=["NameError"], strict=False,
          note="eval(name) of a bare identifier: the object the name is bound to, or NameError")
 
-contract(CF + "find_known_functions.visit_Call", props=["C12"],
+contract(CF + "find_known_functions.visit_Call", props=["C12"], replay={"children_first": "nested_math_functions"},
          params=dict(self=FKF, node=RefOf("ast.Call")), result=RefOf("ast.Call"),
          requires=["field(node, 'func') != None and live(field(node, 'func'))"],
          modifies=["ghost:gv_log", "func", "args", "cpp_name", "include_files", "cpp_return_type", "fields", "alloc"],
